@@ -83,6 +83,8 @@ pub enum COp {
   Clear,
   Compute { k: u8 },
   EntryOrInsert { k: u8, cost: u64 },
+  /// entry(k).or_insert_with(closure): the closure yields `yields` times before it returns
+  EntryOrInsertWith { k: u8, cost: u64, yields: u8 },
   EntryGet { k: u8 },
   FetchWith { k: u8 },
   MultiGet { ks: Vec<u8> },
@@ -490,6 +492,26 @@ fn run_client(idx: usize, cl: &Client, cache: &SCache, acache: &ACache) {
         }
         Res::Val(got.id, got.ctr)
       }
+      COp::EntryOrInsertWith { k, cost, yields } => {
+        let id = fresh_id();
+        let (kk, cc, yy) = (*k, *cost, *yields);
+        let make = move || {
+          for _ in 0..yy {
+            ctx::fault_fired(FaultKind::SlowParty);
+            shuttle::thread::yield_now();
+          }
+          Val { id, key: kk, cost: cc, ctr: 0 }
+        };
+        let got = if a {
+          drive(async { acache.entry(*k).await.or_insert_with(make, *cost) }, Plan::NONE).unwrap()
+        } else {
+          cache.entry(*k).or_insert_with(make, *cost)
+        };
+        if got.id == id {
+          wrote.push((*k, id));
+        }
+        Res::Val(got.id, got.ctr)
+      }
       COp::EntryGet { k } => {
         if a {
           let r = drive(
@@ -782,7 +804,13 @@ impl CacheFamily {
           }
         }
         13 | 14 => COp::Compute { k },
-        15 => COp::EntryOrInsert { k, cost },
+        15 => {
+          if rng.chance(1, 2) {
+            COp::EntryOrInsert { k, cost }
+          } else {
+            COp::EntryOrInsertWith { k, cost, yields: rng.below(4) as u8 }
+          }
+        }
         16 => COp::EntryGet { k },
         17 | 18 if sc_loader => COp::FetchWith { k },
         19 if p.bulk_ops => COp::MultiGet { ks: (0..rng.range(1, 3)).map(|_| rng.below(KEYS) as u8).collect() },
